@@ -218,7 +218,9 @@ impl Compiler {
 
         if !has_spread {
             // Fast path: no spreads, use simple CreateArray
-            let start = self.builder.reserve_registers(count as u8)?;
+            let start = self
+                .builder
+                .reserve_registers(Self::register_span(count, "array elements")?)?;
 
             for (i, elem) in arr.elements.iter().enumerate() {
                 let reg = start + i as u8;
@@ -2279,7 +2281,9 @@ impl Compiler {
         }
 
         // Reserve registers for all parts
-        let start = self.builder.reserve_registers(total_parts as u8)?;
+        let start = self
+            .builder
+            .reserve_registers(Self::register_span(total_parts, "template parts")?)?;
 
         let mut reg_idx = 0;
         for (i, quasi) in template.quasis.iter().enumerate() {
@@ -2389,7 +2393,9 @@ impl Compiler {
         // Compile expression arguments
         let exprs_count = tagged.quasi.expressions.len();
         let exprs_start = if exprs_count > 0 {
-            let start = self.builder.reserve_registers(exprs_count as u8)?;
+            let start = self
+                .builder
+                .reserve_registers(Self::register_span(exprs_count, "template expressions")?)?;
             for (i, expr) in tagged.quasi.expressions.iter().enumerate() {
                 self.compile_expression(expr, start + i as u8)?;
             }
@@ -2534,7 +2540,7 @@ impl Compiler {
         if !params.is_empty() {
             func_compiler
                 .builder
-                .reserve_registers(params.len() as u8)?;
+                .reserve_registers(Self::register_span(params.len(), "parameters")?)?;
         }
 
         // Compile parameter declarations
